@@ -41,14 +41,15 @@ type Report struct {
 }
 
 type Ctx struct {
-	Prop string
-	Tier string
-	Seed int64
-	Out  string
-	R    *rand.Rand
-	Rep  *Report
-	sets []*CaseSet
-	seen map[string]bool // structural hashes of non-trivial cases
+	Prop   string
+	Tier   string
+	Seed   int64
+	Out    string
+	R      *rand.Rand
+	Rep    *Report
+	sets   []*CaseSet
+	seen   map[string]bool // structural hashes of non-trivial cases
+	vcount map[string]int  // violations recorded per key (at most 4 per key are kept)
 }
 
 func (c *Ctx) Thorough() bool { return c.Tier == "thorough" }
@@ -100,7 +101,11 @@ func (c *Ctx) Violate(kind, key, desc string, replay interface{}) {
 		}
 	}
 	desc = expandInterned(desc)
-	if len(c.Rep.Violations) < 50 {
+	if c.vcount == nil {
+		c.vcount = map[string]int{}
+	}
+	c.vcount[key]++
+	if c.vcount[key] <= 4 && len(c.Rep.Violations) < 400 {
 		c.Rep.Violations = append(c.Rep.Violations, Violation{Kind: kind, Key: key, Desc: desc, Replay: replay})
 	}
 }
@@ -108,6 +113,9 @@ func (c *Ctx) Violate(kind, key, desc string, replay interface{}) {
 type runner func(c *Ctx)
 
 var runners = map[string]runner{}
+
+// extras: additional case streams appended to a property's runner (registered from other files' init functions)
+var extras = map[string][]runner{}
 
 func main() {
 	prop := flag.String("prop", "", "property id (C01..C20)")
@@ -136,6 +144,9 @@ func main() {
 	c := &Ctx{Prop: *prop, Tier: *tier, Seed: *seed, Out: *out, R: rand.New(rand.NewSource(*seed)), seen: map[string]bool{}}
 	c.Rep = &Report{Property: *prop, Tier: *tier, Seed: *seed, Distribution: map[string]int{}, Descs: map[string][]string{}}
 	run(c)
+	for _, ex := range extras[*prop] {
+		ex(c)
+	}
 	for _, cs := range c.sets {
 		if len(cs.Cases) == 0 {
 			continue
